@@ -2130,6 +2130,7 @@ def task_genotype_reader_wiring(scratch, tier, seed, logdir):
 
 PMF_NATIVE_TEST = r"""
     #[test]
+    #[allow(clippy::unnecessary_cast)]
     fn kv_binomial_and_pmf_against_exact() {
         fn exact(n: u64, k: u64) -> f64 {
             if k > n {
@@ -2143,7 +2144,7 @@ PMF_NATIVE_TEST = r"""
         }
         for n in (0..=260u64).chain([340, 341, 400, 513, 1000]) {
             for k in (0..=n + 1).filter(|&k| n <= 130 || k <= 6 || k + 3 >= n || k % 7 == 0 || k == n / 2 || k == n / 3) {
-                let got = binomial(n, k);
+                let got = binomial(n, k) as f64;
                 let want = exact(n, k);
                 assert!(close(got, want), "binomial({n}, {k}) = {got}, exact {want}");
             }
@@ -2151,7 +2152,7 @@ PMF_NATIVE_TEST = r"""
         for (size, successes, draws) in [(6u64, 2u64, 4u64), (20, 7, 10), (64, 32, 32), (66, 30, 33), (80, 40, 40), (170, 60, 20), (171, 60, 20), (180, 90, 170), (200, 100, 10), (400, 150, 30)] {
             let mut sum = 0.0;
             for observed in 0..=draws + 1 {
-                let got = hypergeometric_pmf(size, successes, draws, observed);
+                let got = hypergeometric_pmf(size, successes, draws, observed) as f64;
                 let want = if observed > draws || observed > successes || draws - observed > size - successes {
                     0.0
                 } else {
